@@ -350,7 +350,12 @@ pub struct Pipe {
     last_w_pending: bool,
     /// deliver at most up to the next frame boundary per read (C20 injection points)
     pub frame_aligned: bool,
+    /// the writer wrote more than RUNAWAY_WRITES times within one executor step: it is starved from then on
+    pub runaway: bool,
+    w_in_poll: (u64, u64),
 }
+
+pub const RUNAWAY_WRITES: u64 = 100_000;
 
 const SIZES: [usize; 16] = [1, 2, 3, 5, 9, 10, 17, 64, 100, 255, 1000, 4096, 16384, 16393, 70000, usize::MAX];
 
@@ -362,6 +367,8 @@ impl Pipe {
             cap: usize::MAX,
             reader_waker: None,
             writer_waker: None,
+            runaway: false,
+            w_in_poll: (0, 0),
             writer_closed: false,
             reader_dropped: false,
             written: Vec::new(),
@@ -583,6 +590,17 @@ impl Io {
         }
         if total == 0 {
             return Poll::Ready(Ok(0));
+        }
+        let now = p.clock.get();
+        if p.w_in_poll.0 == now {
+            p.w_in_poll.1 += 1;
+        } else {
+            p.w_in_poll = (now, 1);
+        }
+        if p.runaway || p.w_in_poll.1 > RUNAWAY_WRITES {
+            // output without end inside a single poll: starve the writer so that the poll returns
+            p.runaway = true;
+            return Poll::Pending;
         }
         let room = p.cap.saturating_sub(p.buf.len());
         if room == 0 {
